@@ -31,3 +31,37 @@ Example C18_nonvacuous :
   = val (dbl_add 251 [true; true; true; true; false; false; true; false; false; false] (of_Z 251 9) pzero)
   /\ be_bits 0 [true; true; true; true; false; false; true; false; false; false] = le_val 256 bytes.
 Proof. vm_compute. split; reflexivity. Qed.
+
+(* all four Ed25519 multiplication algorithms (constant-time window, base-table
+   comb, variable-time sliding window, double-and-add) agree on every scalar *)
+From Kyber Require Import Group.Slide.
+Theorem C18_all_multipliers_agree : forall q bytes bits pairs (A : zq q),
+    Forall is_byte bytes -> bytes <> [] -> last bytes 0 <= 127 ->
+    be_bits 0 bits = le_val 256 bytes -> pairs_val pairs = le_val 256 bytes ->
+    ge_scalar_mult_vartime q bytes A = window q (rev (recode16 bytes)) A pzero /\
+    ge_scalar_mult_vartime q bytes A = dbl_add q bits A pzero /\
+    ge_scalar_mult_vartime q bytes A = comb q pairs A.
+Proof. exact all_multipliers_agree. Qed.
+Print Assumptions C18_all_multipliers_agree.
+
+(* the reference curve the implementations are compared with: complete addition
+   law (no exceptional cases), ladder = k-fold sum, injective encoding, decoder
+   inverse to the encoder on every curve point - all without premises *)
+From Kyber Require Import CurveRef.Field CurveRef.Edwards Decode.DecodeSM Decode.DecodeInst CurveRef.EdComplete CurveRef.EdDecode.
+Theorem C18_reference_curve_complete : forall x1 y1 x2 y2 : EdF,
+    Ed_curve x1 y1 -> Ed_curve x2 y2 ->
+    zadd zone (zmul (zmul (zmul (zmul (c_d KEd) x1) x2) y1) y2) <> zzero /\
+    zsub zone (zmul (zmul (zmul (zmul (c_d KEd) x1) x2) y1) y2) <> zzero.
+Proof. exact Ed25519_complete. Qed.
+Print Assumptions C18_reference_curve_complete.
+
+Theorem C18_reference_encoding_injective : forall P Q a b,
+  ed_valid P a -> ed_valid Q b -> (ed_encode OEd P = ed_encode OEd Q <-> a = b).
+Proof. exact Ed25519_encode_inj. Qed.
+Print Assumptions C18_reference_encoding_injective.
+
+Theorem C18_reference_point_roundtrip : forall P (x y : EdF),
+  Ed_curve x y -> Ed_repr P x y ->
+  ed_decode OEd KEd (ed_encode OEd P) = Some (mkept x y zone (zmul x y)).
+Proof. exact Ed25519_point_roundtrip. Qed.
+Print Assumptions C18_reference_point_roundtrip.
